@@ -452,7 +452,16 @@ def crepr(o, depth=0):
     return "<%s>" % n
 
 
-def stack_digest(thread, filename_suffix="annet/parallel.py", skip_locals=("_logger", "span", "last_task_ts", "qsize",
+# source files whose frames make up the state of the pool implementation (suffixes of co_filename); the harness of C12 extends the
+# list with every annet module that holds the multiprocessing module (a reorganisation may spread the pool over several files)
+POOL_FILES = ["annet/parallel.py"]
+
+
+def in_pool_file(filename):
+    return any(filename.endswith(sfx) for sfx in POOL_FILES)
+
+
+def stack_digest(thread, filename_suffix=None, skip_locals=("_logger", "span", "last_task_ts", "qsize",
                                                                              "context_carrier", "worker_args", "cap_stdout",
                                                                              "cap_stderr", "worker_id", "pool_span", "self", "pool")):
     if thread is None or thread.ident is None:
@@ -460,7 +469,7 @@ def stack_digest(thread, filename_suffix="annet/parallel.py", skip_locals=("_log
     fr = sys._current_frames().get(thread.ident)
     out = []
     while fr is not None:
-        if fr.f_code.co_filename.endswith(filename_suffix):
+        if (fr.f_code.co_filename.endswith(filename_suffix) if filename_suffix else in_pool_file(fr.f_code.co_filename)):
             loc = fr.f_locals
             items = []
             for k in sorted(loc):
